@@ -161,8 +161,11 @@ def isAnonymous (nameUp : Str) : Bool :=
   | 42 :: c :: d :: _ => (65 ≤ c && c ≤ 90) && (48 ≤ d && d ≤ 57)     -- generators never use such names
   | _ => false
 
+/-- `doc.query('INSERT[name=="<name>"]i')` iterates layouts and blocks, not the entity database:
+    only live block references that are listed in an entity space count -/
 def blockInUse (s : State) (name : Str) : Bool :=
-  s.ents.any fun e => e.alive && e.indb && (match e.ref with | some r => lower r == lower name | none => false)
+  s.ents.any fun e => e.alive && s.spaces.any (fun p => p.2.contains e.h) &&
+    (match e.ref with | some r => lower r == lower name | none => false)
 
 /-- `Layouts.unique_paperspace_name`: first `*Paper_Space<n>` that is not a block name -/
 def natDigits (n : Nat) : Str :=
